@@ -41,6 +41,11 @@ impl Slots {
     /// Fails if there are no free slots.
     #[inline]
     pub(super) fn get_debt(&self, ptr: usize, local: &Local) -> Option<&Debt> {
+        #[cfg(arc_swap_verif)]
+        if verif_rt::buggify(verif_rt::sites::FAST_SLOT_REFUSED) {
+            // Cooperative fault point: the fast path is allowed to fail at any time.
+            return None;
+        }
         // Trick with offsets: we rotate through the slots (save the value from last time)
         // so successive leases are likely to succeed on the first attempt (or soon after)
         // instead of going through the list of already held ones.
@@ -57,10 +62,14 @@ impl Slots {
                 // read-write operation wit SeqCst on it :-(
                 let old = slot.0.swap(ptr, SeqCst);
                 debug_assert_eq!(Debt::NONE, old);
+                #[cfg(arc_swap_verif)]
+                verif_rt::probe(verif_rt::probes::DEBT_WRITTEN, true);
                 local.offset.set(i + 1);
                 return Some(&self.0[i]);
             }
         }
+        #[cfg(arc_swap_verif)]
+        verif_rt::probe(verif_rt::probes::FAST_NO_SLOT, false);
         None
     }
 }
@@ -72,5 +81,15 @@ impl<'a> IntoIterator for &'a Slots {
 
     fn into_iter(self) -> Self::IntoIter {
         self.0.iter()
+    }
+}
+
+#[cfg(arc_swap_verif)]
+impl Slots {
+    /// Simulation bookkeeping: name the locations for traces and statistics.
+    pub(super) fn verif_label(&self) {
+        for (i, d) in self.0.iter().enumerate() {
+            d.0.verif_label(verif_rt::LocClass::FastSlot, i as u16);
+        }
     }
 }
